@@ -44,6 +44,18 @@ Proof.
   apply quiet_logged. split; reflexivity.
 Qed.
 
+Lemma logged_advance s : logged s (advance_voting_round s).
+Proof.
+  unfold advance_voting_round. eapply logged_trans; [|apply logged_increment].
+  apply quiet_logged. split; reflexivity.
+Qed.
+
+Lemma logged_jump s : logged s (jump_voting_round s).
+Proof.
+  unfold jump_voting_round. eapply logged_trans; [|apply logged_update_observers].
+  apply quiet_logged. split; reflexivity.
+Qed.
+
 Lemma logged_shift s voted : logged s (shift_voting_to_committing s voted).
 Proof.
   unfold shift_voting_to_committing.
@@ -53,31 +65,31 @@ Qed.
 
 Lemma logged_check_voting s s' : check_voting_precommit_shift s = Ok s' -> logged s s'.
 Proof.
-  unfold check_voting_precommit_shift, bind, advance_voting_round.
+  unfold check_voting_precommit_shift, bind.
   destruct (byz_majority _) as [maj|]; [|discriminate].
   destruct (_ <? maj).
-  - destruct (_ =? _); intros E; inversion E; subst; [apply logged_increment|apply logged_refl].
+  - destruct (_ =? _); intros E; inversion E; subst; [apply logged_advance|apply logged_refl].
   - destruct (sm_mpc _).
-    + intros E; inversion E; subst. apply logged_increment.
+    + intros E; inversion E; subst. apply logged_advance.
     + destruct (find _ _); intros E; inversion E; subst; [apply logged_shift|apply logged_refl].
 Qed.
 
 Lemma logged_check_next_round s s' : check_next_round_precommit_shift s = Ok s' -> logged s s'.
 Proof.
-  unfold check_next_round_precommit_shift, bind, jump_voting_round.
+  unfold check_next_round_precommit_shift, bind.
   destruct (byz_minority _) as [mn|]; [|discriminate].
   destruct (_ <? mn); [intros E; inversion E; subst; apply logged_refl|].
   destruct (byz_majority _) as [maj|]; [|discriminate].
   destruct (maj <=? _).
-  - intros E. eapply logged_trans; [apply logged_increment|apply logged_check_voting; exact E].
-  - intros E; inversion E; subst. apply logged_increment.
+  - intros E. eapply logged_trans; [apply logged_jump|apply logged_check_voting; exact E].
+  - intros E; inversion E; subst. apply logged_jump.
 Qed.
 
 Lemma logged_check_prevote s s' : check_prevote_shift s = Ok s' -> logged s s'.
 Proof.
-  unfold check_prevote_shift, bind, jump_voting_round.
+  unfold check_prevote_shift, bind.
   destruct (byz_minority _) as [mn|]; [|discriminate].
-  destruct (_ <? mn); intros E; inversion E; subst; [apply logged_refl|apply logged_increment].
+  destruct (_ <? mn); intros E; inversion E; subst; [apply logged_refl|apply logged_jump].
 Qed.
 
 Lemma logged_apply_votes kind s vid h r ups s' :
@@ -91,7 +103,7 @@ Proof.
   set (sm' := if kind =? KPrevote then sum_set_prevotes _ _ _ else _).
   set (v2 := bump (with_sum v1 sm')).
   set (s1 := put_view s vid v2).
-  set (s2 := log_w _ _).
+  set (s2 := ev_w (log_w _ _) _).
   assert (L2 : logged s s2).
   { eapply logged_trans; [apply quiet_logged, quiet_put_view|].
     unfold s2. destruct Hk as [->| ->]; cbn [N.eqb KPrevote KPrecommit]; eapply logged_one; reflexivity. }
@@ -152,7 +164,7 @@ Proof.
   destruct (negb (st =? ViewFound)); [intros E; inversion E; subst; apply logged_refl|].
   destruct (existsb _ _); [intros E; inversion E; subst; apply logged_refl|].
   set (s1 := put_view s vid _).
-  set (s2 := log_w (set_rounds s1 _) _).
+  set (s2 := ev_w (log_w (set_rounds s1 _) _) _).
   assert (L2 : logged s s2).
   { eapply logged_trans; [apply quiet_logged, quiet_put_view|]. eapply logged_one; reflexivity. }
   destruct (negb _); [intros E; inversion E; subst; exact L2|].
